@@ -114,6 +114,53 @@ def split_spec(e, d, tr, pieces):
     return out
 
 
+def ref_split(s, d, m, e, tr):
+    """CHARACTER-LEVEL reference of split_with_escape (Lean `splitRef`, tied by stream esc.ref): one pass, left to right; an
+    occurrence of the delimiter preceded - inside the current item - by an odd run of escapes stays in the item (that escape
+    dropped) and uses up no split; otherwise it is a REAL cut, at most maxsplit of them (falsy maxsplit: no limit); what follows
+    the last allowed cut is the last item, raw; the trailing run of every item is halved when trimming"""
+    if d == "":
+        raise ValueError("empty separator")
+    if not e:
+        return s.split(d, m if m else -1)
+    items, cur, i, cuts = [], "", 0, 0
+    while i < len(s):
+        if s.startswith(d, i):
+            if m and cuts >= m:
+                cur += s[i:]
+                break
+            if run_len(e, cur) % 2:
+                cur = cur[:-1] + d
+            else:
+                items.append(halve(e, cur) if tr else cur)
+                cur = ""
+                cuts += 1
+            i += len(d)
+        else:
+            cur += s[i]
+            i += 1
+    items.append(halve(e, cur) if tr else cur)
+    return items
+
+
+def maxsplit_escape_class(c):
+    """class of the open finding C17-j: an escape character is given and occurs in the text, maxsplit >= 1, and one of the
+    first maxsplit delimiters of the text is escaped (the piece before it ends with an odd run of escapes; for a delimiter
+    that itself ends with the escape character: the piece ends with the escape character or is empty)"""
+    s, d, m, e = c.get("s"), c.get("d"), c.get("m"), c.get("e")
+    if not (isinstance(s, str) and d and e and len(e) == 1 and isinstance(m, int) and m >= 1 and e in s):
+        return False
+    pieces = s.split(d)
+    first = pieces[: min(m, len(pieces) - 1)]
+    if d.endswith(e):
+        return any(p == "" or p.endswith(e) for p in first)
+    return any(run_len(e, p) % 2 == 1 for p in first)
+
+
+def known_real_cuts(c, detail=None):
+    return "C17-j" if maxsplit_escape_class(c) else None
+
+
 def okstrs(xs):
     return ("ok %d %s" % (len(xs), enc_strs(xs))).rstrip()
 
@@ -250,6 +297,15 @@ def spec_py(c):
     return okstrs(split_spec(c["e"], c["d"], c["tr"], c["s"].split(c["d"], c["m"] or -1)))
 
 
+def ref_line(c):
+    return "esc.ref %s %s %d %s %s" % (enc_str(c["s"]), enc_str(c["d"]), c["m"] or 0, optc(c["e"]), tf(c["tr"]))
+
+
+def ref_py(c):
+    r = core.call(ref_split, c["s"], c["d"], c["m"], c["e"], c["tr"])
+    return okstrs(r[1]) if r[0] == "ok" else "err " + r[1]
+
+
 def dlist_line(c):
     return "esc.dlist %s %s %s %s" % (enc_str(c["s"]), enc_str(c["d"]), tf(c["pe"]), optc(c["e"]))
 
@@ -364,14 +420,27 @@ def ddu_impl(c):
 # C: the statement on the implementation
 # ---------------------------------------------------------------------------
 def check_spec(c):
-    """split_with_escape = splitSpec (delimiter non-empty, not ending with the escape character)"""
+    """split_with_escape = the character-level reference (delimiter non-empty, not ending with the escape character): an
+    escaped delimiter stays inside its item, every other delimiter is a cut, at most maxsplit REAL cuts.  (Outside the class
+    of C17-j the reference equals Lean's splitSpec over the pieces of str.split(d, maxsplit): streams esc.spec / esc.split.)"""
     swe = impl()[0]
-    want = split_spec(c["e"], c["d"], c["tr"], c["s"].split(c["d"], c["m"] or -1))
+    want = ref_split(c["s"], c["d"], c["m"], c["e"], c["tr"])
     r = core.call(swe, c["s"], c["d"], c["m"], c["e"], c["tr"])
     if r[0] != "ok":
         return {"raised": r[1], "want": want}
     if r[1] != want:
         return {"got": r[1], "want": want}
+    return None
+
+
+def check_real_cuts(c):
+    """every delimiter, every escape character (None / '' included), every maxsplit, the empty delimiter's ValueError included:
+    split_with_escape = the character-level reference"""
+    swe = impl()[0]
+    want = core.call(ref_split, c["s"], c["d"], c["m"], c["e"], c["tr"])
+    r = core.call(swe, c["s"], c["d"], c["m"], c["e"], c["tr"])
+    if (r[0], list(r[1]) if r[0] == "ok" else r[1]) != (want[0], want[1]):
+        return {"got": list(r), "want": list(want)}
     return None
 
 
@@ -956,6 +1025,7 @@ def check_total(c):
 
 
 EVALS["total"] = check_total
+EVALS["real_cuts"] = check_real_cuts
 
 
 def _base(ev):
@@ -971,6 +1041,9 @@ def shrink_failure(evaluator, case):
     def still(c):
         if _base(evaluator).startswith("ini_") and (not isinstance(c, dict) or c.get("eq") != case.get("eq")):
             return False  # the equal tag is an option of the case: never shrunk
+        if _base(evaluator) in ("spec", "real_cuts") and (c.get("m") != case.get("m") or c.get("d") != case.get("d") or c.get("e") != case.get("e") or c.get("tr") != case.get("tr")
+                                                         or maxsplit_escape_class(c)):
+            return False  # options are never shrunk; a shrunk text must stay outside the class of the open finding C17-j
         return valid(c) and fn(c) is not None
 
     return core.shrink(case, still)
@@ -1003,6 +1076,8 @@ def safe_seps(d, eq):
 
 VALID = {
     "spec": _spec_valid,
+    "real_cuts": lambda c: isinstance(c.get("s"), str) and isinstance(c.get("d"), str) and (not c.get("e") or len(c["e"]) == 1) and isinstance(c.get("tr"), bool)
+    and (c.get("m") is None or isinstance(c["m"], int)),
     "plain": lambda c: isinstance(c.get("s"), str) and isinstance(c.get("d"), str) and (not c.get("e") or (len(c["e"]) == 1 and c["e"] not in c["s"])),
     "total": lambda c: isinstance(c.get("s"), str) and c.get("d") and (not c.get("e") or len(c["e"]) == 1),
     "independent": lambda c: c.get("d") and c.get("e") and len(c["e"]) == 1 and not c["d"].endswith(c["e"]) and run_len(c["e"], c["left"].split(c["d"])[-1]) % 2 == 0,
@@ -1055,7 +1130,7 @@ def replay(rp):
 
 
 IMPLS = {"ini.value": ini_value_impl, "ini.isnum": ini_isnum_impl, "ini.parse": ini_parse_impl, "ini.rt": ini_rt_impl, "ini.read": ini_read_impl,
-         "esc.split": split_impl, "esc.spec": spec_py, "esc.dlist": dlist_impl, "esc.kv": kv_impl, "esc.ddict": ddict_impl,
+         "esc.split": split_impl, "esc.spec": spec_py, "esc.ref": ref_py, "esc.dlist": dlist_impl, "esc.kv": kv_impl, "esc.ddict": ddict_impl,
          "esc.ser": ser_impl, "esc.unesc": unesc_impl, "esc.rt": rt_impl, "esc.rtf": rtf_impl, "esc.ddu": ddu_impl,
          "esc.dlol": dlol_impl, "esc.dfix": dfix_impl, "esc.gvt": gvt_impl}
 
@@ -1103,7 +1178,23 @@ def run(ctx):
     spcases = [c for c in scases + ex if c["e"] and c["d"]]
     ctx.correspond("esc.spec", spcases, spec_line, spec_py, nontrivial=nt_split)
     # ---- C: split = spec, plain, total
-    ctx.evaluate("spec", [c for c in spcases if _spec_valid(c)], check_spec, nontrivial=nt_split)
+    ctx.evaluate("spec", [c for c in spcases if _spec_valid(c)], check_spec, in_known=known_real_cuts, nontrivial=nt_split)
+    # ---- the character-level reference: Lean's splitRef = its Python transcription (B), the code = the reference (C);
+    #      maxsplit 1..4 exhaustively on short texts; failures inside the class of the open finding C17-j are counted, not reported
+    rng = ctx.rng("real-cuts")
+    rc = list(scases) + edge
+    for k in range((5 if ctx.tier == "quick" else 7) + 1):
+        for tup in itertools.product("a;\\", repeat=k):
+            for m in (1, 2, 3, 4):
+                rc.append({"s": "".join(tup), "d": ";", "m": m, "e": "\\", "tr": (k + m) % 2 == 0})
+    for _ in range(n // 2):
+        c = gen_split_case(rng)
+        c["m"] = rng.choice([1, 1, 2, 3, 5])
+        c["s"] = gen_text(rng, c["d"], c["e"], rng.choice([6, 10, 16, 24]))
+        rc.append(c)
+    ctx.correspond("esc.ref", rc, ref_line, ref_py, nontrivial=nt_split)
+    ctx.evaluate("real_cuts", rc, check_real_cuts, in_known=known_real_cuts, nontrivial=lambda c: nt_split(c) and bool(c["m"]))
+    ctx.extra["real_cuts_in_class_C17j"] = sum(1 for c in rc if maxsplit_escape_class(c))
     plain = []
     rng = ctx.rng("plain")
     for _ in range(n // 2):
